@@ -25,6 +25,8 @@ inductive V
   | d (kv : List (Str × Str))
   | t (x : Option (List Int))        -- a `*_parsed` value: the time tuple `_parse_date` returned, or None
   | det (kv : List (Str × Option Str)) -- a `*_detail` dict: contentparams (type, language — may be None —, base) + value
+  | l (items : List (List (Str × Option Str)))   -- stage 3: the `content` list of an entry (one dict per content element)
+  | nil                                -- stage 3: Python's None (`_save("summary", None)` after a mismatched `pop_content`)
 deriving DecidableEq, Repr
 
 /-- insertion-ordered dict -/
@@ -57,6 +59,7 @@ structure CP where
   lang : Option String
   base : String
   base64 : Bool
+  src : Option Str := none            -- stage 3: `contentparams["src"]` of a content element
 deriving DecidableEq, Repr
 
 /-- everything but the element stack -/
@@ -73,6 +76,8 @@ structure Core where
   incontent : Bool := false           -- stage 2: a text construct is open (`self.incontent`, 0 or 1 in the model's domain)
   cp : Option CP := none              -- `self.contentparams` (none = the empty dict)
   titleDepth : Int := -1              -- `self.title_depth`
+  summaryKey : Option Str := none     -- stage 3: `self._summaryKey`
+  hasContent : Bool := false          -- stage 3: `self.hasContent`
 deriving Repr
 
 structure MSt where
@@ -142,6 +147,10 @@ def contentKey (h : Str) : Option (Str × Str) := (Gen.Mixin.contentElementsL.fi
 /-- the `title` handlers are modelled by hand; the translator lists the handler names that reach `_start_title` / `_end_title`
 (directly or through a one-line delegation) and lists NONE when the source of those two no longer has the modelled shape -/
 def isTitle (h : Str) : Bool := Gen.Mixin.titleHandlersL.any (· == h)
+/-- stage 3: the summary / description / content handlers are modelled by hand; the translator lists, per kind (`description`, `abstract`,
+`summary`, `content`, `content_encoded`), the handler names that reach them — and lists none for a kind whose source no longer has the
+modelled shape -/
+def extKind (h : Str) : Option Str := (Gen.Mixin.handModelledL.find? (·.1 == h)).map (·.2)
 def canContainRelativeUris : List Str := Gen.Mixin.canContainRelativeUrisL
 def canContainDangerous : List Str := Gen.Mixin.canContainDangerousMarkupL
 def htmlTypes : List Str := Gen.Mixin.htmlTypesL
@@ -259,10 +268,18 @@ def pushContent (c : Core) (tag : Str) (attrsD : List (Str × Str)) (defType : S
   ({ c with incontent := true, cp := some cp, base := { c.base with lang := lang' } }, ⟨tag, expecting, []⟩)
 
 /-- the `*_detail` value: the remaining content parameters plus the value -/
-def detailOf (cp : Option CP) (ty : Option Str) (out : Str) : V :=
+def detailKV (cp : Option CP) (ty : Option Str) (out : Str) : List (Str × Option Str) :=
   match cp with
-  | some p => .det [(S "type", ty), (S "language", p.lang.map String.toList), (S "base", some p.base.toList), (S "value", some out)]
-  | none => .det [(S "value", some out)]
+  | some p => [(S "type", ty), (S "language", p.lang.map String.toList), (S "base", some p.base.toList)] ++
+      (match p.src with | some x => [(S "src", some x)] | none => []) ++ [(S "value", some out)]
+  | none => [(S "value", some out)]
+def detailOf (cp : Option CP) (ty : Option Str) (out : Str) : V := .det (detailKV cp ty out)
+
+/-- `entries[-1].setdefault("content", []); entries[-1]["content"].append(contentparams + value)` -/
+def appendContent (d : D) (item : List (Str × Option Str)) : D :=
+  match dget d (S "content") with
+  | some (.l items) => dset d (S "content") (.l (items ++ [item]))
+  | _ => dset d (S "content") (.l [item])
 
 /-- what `pop(element)` computes for an element with content parameters: base64, element-level URI, entity decoding, the
 plain-text-or-HTML guess of the non-Atom formats, relative-URI resolution and sanitisation of embedded markup (each under its
@@ -299,7 +316,9 @@ def popFull (o : Ops) (s : MSt) (element : Str) : Option Str × MSt :=
     if element == S "category" || element == S "tags" || element == S "itunes_keywords" then (some out, ⟨c, rest⟩) else
     if element == S "title" && (-1 < c.titleDepth && c.titleDepth ≤ c.depth) then (some out, ⟨c, rest⟩) else
     let detail := detailOf c.cp r.1 out
-    if c.inentry then
+    if c.inentry && element == S "content" then
+      (some out, ⟨{ c with entries := updHead (fun e => { e with d := appendContent e.d (detailKV c.cp r.1 out) }) c.entries }, rest⟩)
+    else if c.inentry then
       let el := if element == S "description" then S "summary" else element
       let es1 := updHead (writeEntry el out c.depth) c.entries
       let es2 := if c.incontent then updHead (fun e => { e with d := fset e.d (el ++ S "_detail") detail }) es1 else es1
@@ -346,6 +365,65 @@ re-serialised) are outside the model's domain -/
 def startContent (s3 : Core) (k : Str) (attrsD : List (Str × Str)) (ty : Str) (expecting : Bool) : Except Str (Core × Option Elem) :=
   if (pushContent s3 k attrsD ty expecting).1.cp.map (·.type) == some XHTML then .error (S "inline XHTML content")
   else .ok ((pushContent s3 k attrsD ty expecting).1, some (pushContent s3 k attrsD ty expecting).2)
+
+/-! ### stage 3: summary / description / content (namespaces/_base.py `_start_description`, `_start_abstract`, `_start_summary`,
+`_start_content`, `_start_content_encoded` and their end handlers), with `_summaryKey` and `hasContent` -/
+
+/-- the current context dict (`_get_context()` with `insource = inimage = intextinput = 0`) -/
+def contextD (c : Core) : D := if c.inentry then (c.entries.head?.map (·.d)).getD [] else c.feed
+
+/-- `self.push_content(k, …)` as a start handler pushing ONE element; XHTML-typed constructs are outside the domain -/
+def startContentL (s3 : Core) (k : Str) (attrsD : List (Str × Str)) (ty : Str) (expecting : Bool) : Except Str (Core × List Elem) :=
+  match startContent s3 k attrsD ty expecting with
+  | .ok (c, some e) => .ok (c, [e])
+  | .ok (c, none) => .ok (c, [])
+  | .error w => .error w
+
+/-- `_start_content`: `hasContent = 1; push_content("content", attrs_d, "text/plain", 1); src → contentparams["src"]; push("content", 1)`
+— TWO elements are pushed; the end handler pops only the upper one -/
+def srcOf (attrsD : List (Str × Str)) : Option Str :=
+  match sget attrsD (S "src") with | some x => if x.isEmpty then none else some x | none => none
+
+def contentElemCore (c : Core) (attrsD : List (Str × Str)) : Core :=
+  let c2 := (pushContent { c with hasContent := true } (S "content") attrsD (S "text/plain") true).1
+  { c2 with cp := c2.cp.map fun p => { p with src := srcOf attrsD } }
+
+def startContentElem (c : Core) (attrsD : List (Str × Str)) : Except Str (Core × List Elem) :=
+  match startContent { c with hasContent := true } (S "content") attrsD (S "text/plain") true with
+  | .ok _ => .ok (contentElemCore c attrsD, [⟨S "content", true, []⟩, ⟨S "content", true, []⟩])
+  | .error w => .error w
+
+def startExt (s3 : Core) (kind : Str) (attrsD : List (Str × Str)) : Except Str (Core × List Elem) :=
+  -- `"summary" in context and not self.hasContent`: a second description / summary becomes a content element
+  let viaContent := (dget (contextD s3) (S "summary")).isSome && !s3.hasContent
+  if kind == S "description" then
+    if viaContent then startContentElem { s3 with summaryKey := some (S "content") } attrsD
+    else startContentL s3 (S "description") attrsD (S "text/html") (s3.infeed || s3.inentry)
+  else if kind == S "abstract" then startContentL s3 (S "description") attrsD (S "text/plain") (s3.infeed || s3.inentry)
+  else if kind == S "summary" then
+    if viaContent then startContentElem { s3 with summaryKey := some (S "content") } attrsD
+    else startContentL { s3 with summaryKey := some (S "summary") } (S "summary") attrsD (S "text/plain") true
+  else if kind == S "content" then startContentElem s3 attrsD
+  else if kind == S "content_encoded" then startContentL { s3 with hasContent := true } (S "content") attrsD (S "text/html") true
+  else .error (S "unknown hand-modelled kind")
+
+def applyExt (stack : List Elem) : Except Str (Core × List Elem) → Outcome
+  | .ok (c, es) => .ok ⟨c, es ++ stack⟩
+  | .error w => .unmodelled w
+
+/-- `context.setdefault(key, value)` (`_save` without overwrite) in the current context -/
+def dsetDefault (d : D) (k : Str) (v : V) : D := if (dget d k).isSome then d else dset d k v
+def saveDefault (c : Core) (k : Str) (v : V) : Core :=
+  if c.inentry then { c with entries := updHead (fun e => { e with d := dsetDefault e.d k v }) c.entries }
+  else { c with feed := dsetDefault c.feed k v }
+
+/-- the element an end handler of stage 3 pops, whether it goes through `_end_content`, and whether it clears `_summaryKey` -/
+def endPlan (c : Core) (kind : Str) : Str × Bool × Bool :=
+  if kind == S "description" || kind == S "abstract" then
+    (if c.summaryKey == some (S "content") then (S "content", true, true) else (S "description", false, true))
+  else if kind == S "summary" then
+    (if c.summaryKey == some (S "content") then (S "content", true, true) else (c.summaryKey.getD (S "summary"), false, true))
+  else (S "content", true, false)
 
 /-- the dispatch of `unknown_starttag` on the stack-free part of the state: structural handler, other
 handler (outside the model), or the fallback for elements without a handler (mixin.py:305-320).
@@ -397,7 +475,9 @@ def applyDispatch (stack : List Elem) : Except Str (Core × Option Elem) → Out
 
 def startTag0 (o : Ops) (s0 : MSt) (tag : Str) (attrs0 : List (Str × Str)) : Outcome :=
   let r := startPre o s0.c tag attrs0
-  applyDispatch s0.stack (dispatchCore r.1 (handlerName r.1 tag) r.2)
+  match extKind (handlerName r.1 tag) with
+  | some kind => applyExt s0.stack (startExt r.1 kind r.2)
+  | none => applyDispatch s0.stack (dispatchCore r.1 (handlerName r.1 tag) r.2)
 
 /-- inside a text construct a start tag is re-serialised into the content (inline markup) instead of being dispatched: outside
 the model's domain -/
@@ -417,6 +497,30 @@ def afterTitle (k : Str) (r : Option Str × MSt) : Core :=
     | some v => if v.isEmpty then r.2.c else { r.2.c with titleDepth := r.2.c.depth }
     | none => r.2.c) else r.2.c
 
+/-- `_end_content`: `copyToSummary` is decided BEFORE the pop (before the plain-text-or-HTML guess) -/
+def copyToSummary (c : Core) (kind : Str) : Bool :=
+  (endPlan c kind).2.1 && (match c.cp with
+    | some p => mapContentType p.type == S "text/plain" || htmlTypes.contains (mapContentType p.type)
+    | none => false)
+
+/-- after the pop: `if copyToSummary: self._save("summary", value)` -/
+def endExtSaved (o : Ops) (s0 : MSt) (kind : Str) : Core :=
+  if copyToSummary s0.c kind then
+    saveDefault (popContent o s0 (endPlan s0.c kind).1).2.c (S "summary")
+      (match (popContent o s0 (endPlan s0.c kind).1).1 with | some v => .s v | none => .nil)
+  else (popContent o s0 (endPlan s0.c kind).1).2.c
+
+/-- …then `self._summaryKey = None` for the description / summary handlers -/
+def endExtCore (o : Ops) (s0 : MSt) (kind : Str) : Core :=
+  if (endPlan s0.c kind).2.2 then { endExtSaved o s0 kind with summaryKey := none } else endExtSaved o s0 kind
+
+/-- the end handlers of stage 3.  `pop_content` always leaves the text construct (even when the element on top of the stack is another
+one and nothing is popped), so no restriction on the stack is needed here.  (`_end_content` reads `contentparams["type"]`; with EMPTY
+content parameters the real code raises inside the handler — `copyToSummary` is totalised to "no copy" there, and
+`content_has_params` (Props/C01) proves that branch unreachable: an open text construct always has content parameters.) -/
+def endExt (o : Ops) (s0 : MSt) (kind : Str) : Outcome :=
+  .ok ⟨endFinish o (endExtCore o s0 kind), (popContent o s0 (endPlan s0.c kind).1).2.stack⟩
+
 /-- the end tag of the open text construct (`incontent`): only ITS OWN end tag is in the model's domain -/
 def endContent (o : Ops) (s0 : MSt) (h : Str) : Outcome :=
   match contentEndKey h, s0.stack with
@@ -430,7 +534,7 @@ def endTag0 (o : Ops) (s0 : MSt) (tag : Str) : Outcome :=
   if h == S "channel" || h == S "feed" then .ok ⟨endFinish o { s0.c with infeed := false }, s0.stack⟩
   else if h == S "item" || h == S "entry" then
     let s1 := pop o s0 (S "item")
-    .ok ⟨endFinish o { s1.c with inentry := false }, s1.stack⟩
+    .ok ⟨endFinish o { s1.c with inentry := false, hasContent := false }, s1.stack⟩
   else match dateKey h with
   | some (k, pk) =>
     -- value = self.pop(K); self._save(K_parsed, _parse_date(value), overwrite=True)
@@ -446,8 +550,11 @@ def endTag0 (o : Ops) (s0 : MSt) (tag : Str) : Outcome :=
     .ok ⟨endFinish o s1.c, s1.stack⟩
 
 def endTag (o : Ops) (s0 : MSt) (tag : Str) : Outcome :=
-  if s0.c.incontent then endContent o s0 (handlerName s0.c tag)
-  else if (contentEndKey (handlerName s0.c tag)).isSome then .unmodelled (S "stray end tag of a text construct")
+  if s0.c.incontent then
+    (match extKind (handlerName s0.c tag) with
+     | some kind => endExt o s0 kind
+     | none => endContent o s0 (handlerName s0.c tag))
+  else if (contentEndKey (handlerName s0.c tag)).isSome || (extKind (handlerName s0.c tag)).isSome then .unmodelled (S "stray end tag of a text construct")
   else endTag0 o s0 tag
 
 def handleData (s : MSt) (text : Str) : MSt :=
